@@ -14,6 +14,7 @@ footer was the one front end that still panicked; since fix 6b0ee35 `aidx_footer
 for all inputs (the former counter-witness is proved rejected).
 -/
 import Cascette.Proofs.ParseGuards
+import Cascette.Proofs.ParseFronts
 import Cascette.Proofs.Integrity
 namespace Cascette.Props.C02
 open Cascette Cascette.Model.ParseGuards
@@ -171,5 +172,122 @@ theorem aidx_footer_no_panic_partial (H : Hash) (cs : Bool) (d : Bytes)
 /-- the partial theorem's hypothesis is met by a non-trivial input (a 28-byte footer whose
 hash-size byte is 8). -/
 example : byteAt (List.replicate 15 0 ++ [8] ++ List.replicate 12 0) (28 - 13) = 8 := by decide
+
+/-! ## Second batch of front ends (Model/ParseFronts) -/
+
+open Cascette.Model in
+/-- TVFS ON BYTES: for every byte string, `TvfsFile::parse` (header, table ranges, then
+`parse_directory` on the path-table bytes) never enters `parse_directory` deeper than 513 — the
+byte-level form of `tvfs_depth_bounded` (fix 64c1c0f). -/
+theorem tvfs_bytes_depth_bounded (b : List Nat) : (ParseFronts.TvfsB.front b).depth ≤ 513 :=
+  Proofs.ParseFronts.TvfsB.front_depth b
+
+open Cascette.Model in
+/-- every `parse_directory` call tree, from any starting depth ≤ 513 and with any fuel, stays ≤ 513. -/
+theorem tvfs_bytes_dir_depth_bounded (fuel d : Nat) (bs : List Nat) (h : d ≤ 513) :
+    (ParseFronts.TvfsB.dir fuel d bs).2 ≤ 513 :=
+  Proofs.ParseFronts.TvfsB.dir_le fuel d bs h
+
+/-- hypothesis satisfiable, non-trivially: three nested folders walked from depth 0 reach depth 3. -/
+example : Cascette.Model.ParseFronts.TvfsB.walk
+    [0xFF, 0x80, 0, 0, 14, 0xFF, 0x80, 0, 0, 9, 0xFF, 0x80, 0, 0, 4] = (true, 3) := by decide
+
+open Cascette.Model in
+/-- TVFS front end on bytes: no panic; the path-table copy is bounded by the input length. -/
+theorem tvfs_bytes_no_panic_alloc_bounded (b : List Nat) :
+    (ParseFronts.TvfsB.front b).verdict ≠ .panic ∧ ∀ a ∈ (ParseFronts.TvfsB.front b).allocs, a ≤ b.length :=
+  ⟨Proofs.ParseFronts.TvfsB.front_no_panic b, Proofs.ParseFronts.TvfsB.front_alloc b⟩
+
+open Cascette.Model in
+/-- ROOT block loop, every version, every input: each `Vec::with_capacity(num_records)` request
+(deltas, ids, keys, name hashes, records) is ≤ 16·len + 4 000 000 — the first request of a block is
+capped by the parser's own `num_records ≤ 1 000 000` guard (4 MB), every later one is made only
+after 4·num_records bytes were read. Element sizes ≤ 64 are parameters (cfg line). -/
+theorem root_blocks_alloc_bounded (szHash szRec : Nat) (h1 : szHash ≤ 64) (h2 : szRec ≤ 64)
+    (v : RootFile.Version) (bs : List Nat) :
+    ∀ a ∈ ParseFronts.Root.blocksAll szHash szRec v bs, a ≤ 16 * bs.length + 4000000 :=
+  Proofs.ParseFronts.Root.blocks_alloc szHash szRec h1 h2 v _ bs
+
+open Cascette.Model in
+/-- one block: requests bounded as above and the unread input is a suffix (the loop advances within
+the file). -/
+theorem root_block_step (szHash szRec : Nat) (h1 : szHash ≤ 64) (h2 : szRec ≤ 64)
+    (v : RootFile.Version) (bs : List Nat) :
+    (∀ a ∈ (ParseFronts.Root.blockStep szHash szRec v bs).1, a ≤ 16 * bs.length + 4000000) ∧
+    (∀ r, (ParseFronts.Root.blockStep szHash szRec v bs).2 = some r → r.length ≤ bs.length) :=
+  Proofs.ParseFronts.Root.blockStep_spec szHash szRec h1 h2 v bs
+
+/-- non-vacuity: a V1 block of 2 records in a 12+8+48-byte input requests 8, 8 and 2·40 bytes. -/
+example : (Cascette.Model.ParseFronts.Root.blockStep 16 40 .v1
+    ([2, 0, 0, 0, 0, 0, 0, 0, 1, 0, 0, 0] ++ List.replicate 56 7)).1 = [8, 8, 80] := by decide
+
+open Cascette.Model in
+/-- PATCH ARCHIVE front end (header, `validate`, encoding info, block table): `key[..key_size]` of
+the 16-byte key arrays — a `.panic` branch of the model — is unreachable because `validate` bounds
+the key sizes first; the espec buffer (u8) and the block vector (u16 count × element size ≤ 64) are
+bounded by constants, for every input. -/
+theorem parchive_no_panic_alloc_bounded (szBlock : Nat) (hs : szBlock ≤ 64) (b : List Nat) :
+    (ParseFronts.PArch.front szBlock b).verdict ≠ .panic ∧
+      ∀ a ∈ (ParseFronts.PArch.front szBlock b).allocs, a ≤ 64 * 65536 :=
+  Proofs.ParseFronts.PArch.front_spec szBlock hs b
+
+/-- the panic branch is real in the model: a key size of 17 reaching `read_key` would panic. -/
+example : (match Cascette.Model.ParseFronts.PArch.readKey 17 (List.replicate 40 0) with
+    | .panic => true | _ => false) = true := by decide
+
+open Cascette.Model in
+/-- ESPEC: for every string, the parser (complete grammar model) never has more than 65
+`parse_espec` frames (64 nested specs + the call that refuses) — fix 4e06d16; before it the depth
+was the number of `b:` / `e:{…,` prefixes of the input. -/
+theorem espec_depth_bounded (s : List Char) : (ParseFronts.ESpec.parse s).2 ≤ 65 :=
+  Proofs.ParseFronts.ESpec.parse_depth s
+
+open Cascette.Model in
+theorem espec_go_depth_bounded (fuel : Nat) (m : ParseFronts.ESpec.Mode) (d : Nat) (s : List Char) (h : d ≤ 64) :
+    (ParseFronts.ESpec.go fuel m d s).2 ≤ 65 :=
+  Proofs.ParseFronts.ESpec.go_le fuel m d s h
+
+/-- TEST (kernel evaluation): 64 levels parse, 65 are refused; a real CDN spec parses at depth 2. -/
+theorem espec_nesting_limit_test :
+    (Cascette.Model.ParseFronts.ESpec.parse ((List.replicate 63 ['b', ':']).flatten ++ ['n'])).1 = true ∧
+    (Cascette.Model.ParseFronts.ESpec.parse ((List.replicate 64 ['b', ':']).flatten ++ ['n'])) = (false, 65) ∧
+    (Cascette.Model.ParseFronts.ESpec.parse "b:{164=z,16K*565=z:{6,mpq},1M*=n}".toList) = (true, 2) := by
+  decide +kernel
+
+open Cascette.Model in
+/-- LOCAL HEADER `blte_size` (fix 84a8898, saturating): never above the stored size — it cannot wrap. -/
+theorem lhdr_blte_size_le (b : Bytes) : ParseFronts.LHdr.blteSize b ≤ (ParseFronts.LHdr.sizeWithHeader b).toNat :=
+  Proofs.ParseFronts.LHdr.blteSize_le b
+
+open Cascette.Model in
+/-- the expression as written BEFORE the fix (`u32` subtraction, release profile = wrapping,
+`BitVec 32`): for a stored size below 30 it yields `size + 4294967266` (≈ 4 GiB) where the fixed code
+yields 0; for sizes ≥ 30 both agree. (With overflow checks on, the old expression panicked.) -/
+theorem lhdr_blte_size_wrapping (b : Bytes) :
+    ((ParseFronts.LHdr.sizeWithHeader b).toNat < 30 →
+      (ParseFronts.LHdr.blteSizeWrapping b).toNat = (ParseFronts.LHdr.sizeWithHeader b).toNat + 4294967266 ∧
+      ParseFronts.LHdr.blteSize b = 0) ∧
+    (30 ≤ (ParseFronts.LHdr.sizeWithHeader b).toNat →
+      (ParseFronts.LHdr.blteSizeWrapping b).toNat = ParseFronts.LHdr.blteSize b) :=
+  ⟨Proofs.ParseFronts.LHdr.wrapping_wraps b, Proofs.ParseFronts.LHdr.wrapping_eq b⟩
+
+/-- both hypotheses are met: an all-zero header (stored size 0) and one with stored size 130. -/
+example : (Cascette.Model.ParseFronts.LHdr.sizeWithHeader (List.replicate 30 0)).toNat < 30 ∧
+    30 ≤ (Cascette.Model.ParseFronts.LHdr.sizeWithHeader (List.replicate 19 0 ++ [130] ++ List.replicate 10 0)).toNat := by
+  decide
+
+open Cascette.Model in
+/-- LRU file (C07's `Lru.deserialize` as front end), any hash: no panic; the entry vector is
+bounded by the file length. -/
+theorem lru_no_panic_alloc_bounded (H : Integrity.Hash) (szEntry : Nat) (hs : szEntry ≤ 64) (d : Bytes) :
+    (ParseFronts.Lru.front H szEntry d).verdict ≠ .panic ∧ ∀ a ∈ (ParseFronts.Lru.front H szEntry d).allocs, a ≤ 4 * d.length :=
+  Proofs.ParseFronts.Lru.front_spec H szEntry hs d
+
+open Cascette.Model in
+/-- RESIDENCY DB: whatever the page-count fields say (u32, never used to size anything), the pages
+`ResidencyDb::load` keeps fit the file: pages · 1024 ≤ len, for any fuel. -/
+theorem residency_pages_fit (fuel : Nat) (bs : List Nat) :
+    ParseFronts.Resid.load fuel bs * ParseFronts.Resid.pageSize ≤ bs.length :=
+  Proofs.ParseFronts.Resid.load_fit fuel bs
 
 end Cascette.Props.C02
